@@ -155,6 +155,30 @@ CHECKS += [
            "Outlet.update checked structurally (call order) only"),
 ]
 
+CHECKS += [
+ dict(id='C06',
+      text="Partial, on the mechanically extracted particle_array.pyx: align_particles' index loop proved for arrays of any "
+           "length with a quantified invariant (injective into [0,n), Local first, num_real = #Local) and the same index "
+           "array + own stride passed to every property; remove_particles sorts the index list whatever its type and "
+           "hands the same sorted array, flag and own stride to every property; remove_tagged_particles collects exactly "
+           "the matching indices in order; extend resizes to (n+k)*stride and fills defaults from n*stride; "
+           "extract_particles copies whole rows to the end of the destination.",
+      note="cyarray (resize/remove/c_align_array/copy_values) contracts assumed; Cython types dropped by the extraction; "
+           "NOT verified: add_property, add_particles, append_parray, pickling, get/set (numpy glue) -> the record-list "
+           "equivalence is claimed only for the operations listed"),
+ dict(id='C07',
+      text="Partial, on the extracted nnps_base.pyx: box wrap proved for any number of particles (quantified invariant: "
+           "every coordinate moved by 0 or +-T, back inside when it had left by < T, untouched otherwise); the three "
+           "array helper loops; every scan loop appends i iff the particle is within the ghost layer of that face (and "
+           "the mirror translation -2(x-min)/2(max-x) in lockstep); trace contract of the periodic and mirror ghost "
+           "construction for two arrays (documented order, images shifted along the right axis from the old end of the "
+           "buffer, corner passes over the ghost buffer, matching velocity component negated, lists filled by this "
+           "array's scan); update() removes old ghosts first. One defect repaired (fix: a11db0a).",
+      note="ParticleArray operations assumed (C06); the set lemma 'every face/edge/corner image exactly once' is "
+           "mathematics and only pre-screened; GPU/MPI paths not examined; replay of violations builds the extension "
+           "from the working tree (about 1 min)"),
+]
+
 NOT_APPLICABLE = [
  dict(property_id='C11', reason="round trip runs through numpy.savez/numpy.load/h5py and the compiled ParticleArray constructor; the repository code in between is dict/bytes glue no contract within reach can express (DESIGN.md section 4)"),
  dict(property_id='C12', reason="finite enumeration of scheme options decided by executing scheme code, generating and running; no function-level contract states it (DESIGN.md section 4)"),
@@ -162,7 +186,7 @@ NOT_APPLICABLE = [
 ]
 # properties not yet under a registered check are listed as not applicable
 # "pending" until their check lands, so the manifest is valid at all times
-PENDING = ['C01','C06','C07','C17']
+PENDING = ['C01','C17']
 for p in PENDING:
     if p not in [c['id'] for c in CHECKS]:
         NOT_APPLICABLE.append(dict(property_id=p, reason="check not registered yet in this commit (work in progress, see DESIGN.md section 3 for the planned contracts)"))
